@@ -41,6 +41,9 @@ use hickory_resolver::TokioResolver;
 use multiaddr::{Multiaddr, Protocol};
 use socket2::{Domain, Socket, Type};
 use std::{net::SocketAddr, sync::Arc};
+#[cfg(litep2p_verif)]
+use crate::verif::net::TcpStream;
+#[cfg(not(litep2p_verif))]
 use tokio::net::TcpStream;
 use tokio_tungstenite::{MaybeTlsStream, WebSocketStream};
 
@@ -216,7 +219,49 @@ impl WebSocketTransport {
             .map_err(|_| AddressError::InvalidUrl)
     }
 
+    /// Dial remote peer over the simulated network.
+    #[cfg(litep2p_verif)]
+    async fn dial_peer(
+        address: Multiaddr,
+        dial_addresses: DialAddresses,
+        connection_open_timeout: Duration,
+        _nodelay: bool,
+        resolver: Arc<TokioResolver>,
+    ) -> Result<(Multiaddr, WebSocketStream<MaybeTlsStream<TcpStream>>), DialError> {
+        let (url, _) = Self::multiaddr_into_url(address.clone())?;
+
+        let (socket_address, _) = WebSocketAddress::multiaddr_to_socket_address(&address)?;
+        let remote_address =
+            match tokio::time::timeout(connection_open_timeout, socket_address.lookup_ip(resolver))
+                .await
+            {
+                Err(_) => return Err(DialError::Timeout),
+                Ok(Err(error)) => return Err(error.into()),
+                Ok(Ok(address)) => address,
+            };
+        let local = dial_addresses.local_dial_address(&remote_address.ip()).ok().flatten();
+
+        let future = async move {
+            let stream = TcpStream::connect_from(local, remote_address).await?;
+
+            Ok((
+                address,
+                tokio_tungstenite::client_async_tls(url, stream)
+                    .await
+                    .map_err(NegotiationError::WebSocket)?
+                    .0,
+            ))
+        };
+
+        match tokio::time::timeout(connection_open_timeout, future).await {
+            Err(_) => Err(DialError::Timeout),
+            Ok(Err(error)) => Err(error),
+            Ok(Ok((address, stream))) => Ok((address, stream)),
+        }
+    }
+
     /// Dial remote peer over `address`.
+    #[cfg(not(litep2p_verif))]
     async fn dial_peer(
         address: Multiaddr,
         dial_addresses: DialAddresses,
